@@ -308,6 +308,25 @@ pub fn c03(ctx: &mut Ctx, t: &Term) {
             }
             Err(e) => report_panic(ctx, t, "build", &e),
           }
+          // ... and the full comparison on objects whose first call was one of the four single
+          // observations (what a cache keeps from that first call - under whichever key - must not
+          // reach a later call with other options)
+          for (first, fc, is_map) in [("map(columns=false) first", false, true), ("stream(columns=false) first", false, false), ("map(columns=true) first", true, true), ("stream(columns=true,final) first", true, false)] {
+            match Obs::new(t) {
+              Ok(o3) => {
+                if is_map {
+                  let _ = o3.map(fc);
+                } else if fc {
+                  let _ = o3.stream(true, true);
+                } else {
+                  let _ = o3.stream(false, false);
+                }
+                ctx.count("first_call_orders");
+                c03_on(ctx, t, &o3, &o3, first);
+              }
+              Err(e) => report_panic(ctx, t, "build", &e),
+            }
+          }
         }
       }
       Err(e) => report_panic(ctx, t, "build", &e),
